@@ -488,17 +488,22 @@ Section Bytes.
   Hypothesis num_grammar : forall b, numclean b -> num_ok (numprint b) = true.
   Hypothesis num_back : forall b, numclean b -> numval (numprint b) = Some b.
 
-  Definition text_clean : json -> Prop := tclean StdJson numclean.
+  (** values the library reads back exactly: clean numbers, valid UTF-8, and a text within the
+      nesting limit *)
+  Definition text_clean (j : json) : Prop := tclean StdJson numclean j /\ too_deep (print numprint j) = false.
 
-  Lemma std_faithful_bytes j : text_clean j -> parse_text StdJson numval (print numprint j) = PTree j.
-  Proof. apply parse_print; assumption. Qed.
-  Lemma jsi_faithful_bytes j : text_clean j -> parse_text Jsoniter numval (print numprint j) = PTree j.
-  Proof. intro C. apply (parse_print Jsoniter numval numprint numclean); try assumption. apply tclean_jsi, C. Qed.
+  Lemma std_faithful_bytes j : text_clean j -> parse_json StdJson numval (print numprint j) = PTree j.
+  Proof. intros [C D]. unfold parse_json. rewrite D. apply (parse_print StdJson numval numprint numclean); assumption. Qed.
+  Lemma jsi_faithful_bytes j : text_clean j -> parse_json Jsoniter numval (print numprint j) = PTree j.
+  Proof.
+    intros [C D]. unfold parse_json. rewrite D.
+    apply (parse_print Jsoniter numval numprint numclean); try assumption. apply tclean_jsi, C.
+  Qed.
 
   (** [print numprint j] is never the empty text (for any [j]: the first byte is fixed by the
       constructor, except for numbers) *)
   Lemma render_nonempty_bytes_clean j : text_clean j -> is_empty (print numprint j) = false.
-  Proof. apply print_nonempty; assumption. Qed.
+  Proof. intros [C _]. exact (print_nonempty StdJson numprint numclean num_nonempty num_chars j C). Qed.
 End Bytes.
 
 (** ** witnesses: one text, two readings (replayed on the real code by the harness, raw kinds
